@@ -571,6 +571,12 @@ def rule_c(ctx):
                            r2 == ["None", "self.pressure_constraint", "None"], str(r2), c)
                     ctx.ob(R, f.qname, f"system #{n} `{_assigned_name(c)}`: flux row couples to the pressure through -div.T only",
                            b01 == "-self.div.T" and b02 == "None", f"{b01}, {b02}", c)
+                    # the assembled operator is used as it is: a factor on the whole block matrix rescales the divergence and constraint rows,
+                    # which the reduced formulations slice out of the initial operator and reuse for every later system
+                    par = getattr(c0, "_parent", None)
+                    scaled = isinstance(par, ast.BinOp) and isinstance(par.op, (ast.Mult, ast.Div, ast.MatMult))
+                    ctx.ob(R, f.qname, f"system #{n} `{_assigned_name(c)}`: the assembled block operator is not rescaled as a whole", not scaled,
+                           f"`{norm(par)[:80]}`: mass-balance and constraint rows are scaled along with the flux block" if scaled else "", c0, evidence=True)
     ctx.floor(R, 6)
     for cname in SOLVERS:
         f = m.func(WAS, f"{cname}._solve")
@@ -807,3 +813,7 @@ def run(ctx):
     from .common import shared
 
     shared(ctx, "C04.d", c06.rule_c, why="distance, transport density and info['flux'] all integrate face_to_cell(flat_flux, pt)")
+    # mass balance to linear-solver precision needs every set-up to build its preconditioner / factorisation from the matrix it is given (C08.f)
+    from . import c08
+
+    shared(ctx, "C04.g", c08.rule_f, why="an iterative back-end preconditioned for an earlier matrix misses its tolerance silently: the residual is a mass defect")
